@@ -64,11 +64,56 @@ CLAIMS = {
     },
 }
 
+CLAIMS.update({
+    "C03": {
+        "text": "Decides structural necessary conditions of 'accepted programs compile': no generator visitor has a panicking arm for a parser-constructible AST variant unless a recorded checker rule makes it unreachable "
+        "(VISIT-TOTAL-GEN); capture, locals and resolver passes reach every expr/stmt/arm/pattern/parameter child, including match scrutinees, assignment targets, nested lambdas, tasks and default values "
+        "(VISIT-COMPLETE-*); wherever the checker constrains an operand only to an interface the generator's type dispatch ends in interface dispatch, not a panic (TYPED-FALLBACK); every function boundary in the "
+        "checker pushes a loop barrier so break/continue cannot escape a lambda or task (CTX-BARRIER); the generator only runs after `analyze(..)?` (GUARD); the assembler is total and every looked-up constant is gathered (ASM-TOTAL).",
+        "note": "Not decided: absence of every unwrap() failure in the translator (they depend on invariants of solved types). Diverging arms justified in rules/visitors.py are listed in the evidence. One known finding (unary minus on a user Num type).",
+    },
+    "C04": {
+        "text": "Decides that no resolver / type-checker / exhaustiveness visitor has a panicking arm for a constructible AST variant (VISIT-TOTAL-FRONT), that the type-indexed tables of the exhaustiveness pass are total over "
+        "solved types (TYPE-TOTAL), that the exhaustiveness pass is skipped after earlier errors and passes run in order (GUARD), and that every pattern introducing variables is entered in the table the assignment check indexes with a panicking [] (MUT-PAIR).",
+        "note": "Not decided: termination, and panic-freedom of offset arithmetic and slice indexing in the lexer/parser (value reasoning).",
+    },
+    "C12": {
+        "text": "Decides the coverage clause: the exhaustiveness pass reaches every match expression of the program - no expr/stmt/arm child of any AST variant is skipped by the family (VISIT-COMPLETE-EXH); entry guard and pass order (GUARD); totality of the type -> constructor-set table (TYPE-TOTAL).",
+        "note": "Correctness of the usefulness algorithm itself (value-set reasoning) is not decided.",
+    },
+    "C13": {
+        "text": "Decides the second sentence: literal pattern constructors are compared by value - the float constructor's payload is derived from parse::<f64>() of the spelling and same-kind payloads are compared with == (LIT-CANON).",
+        "note": "The iff of the first sentence (redundancy exactly when unreachable) is not decided.",
+    },
+    "C18": {
+        "text": "Decides that every callee form of a call that can name a declaration with parameters (variable, member access, leading-dot variant) translates its arguments from the checker's reorder table, which is where names and defaults are resolved (CALL-SIBLING).",
+        "note": "calculate_named_arg_order as an algorithm and the misuse diagnostics are not decided.",
+    },
+    "C19": {
+        "text": "Decides that capture analysis reaches the bodies of nested lambdas and tasks and every other child that can contain a variable use (VISIT-COMPLETE-CAPTURES), and that lambda/task bodies are resolved in a closure scope (ASSIGN-CAPTURED).",
+        "note": "Values at creation time are not decided (follows from LoadOffset-per-capture emission, not checked here).",
+    },
+    "C20": {
+        "text": "Decides: every binding-introducing pattern (let, for, match arm) is recorded in pat_is_mutable, which the assignment check consults (MUT-PAIR); assignment to a variable declared outside the enclosing lambda/task is reported where names are resolved (ASSIGN-CAPTURED); "
+        "the capture and locals passes visit assignment targets (VISIT-COMPLETE-*).",
+        "note": "Diagnostic wording is not decided.",
+    },
+    "C21": {
+        "text": "Decides: constructs with a body (for, match arm, lambda, block, while) bind their variables in a scope created for the construct while let binds in the current scope (SCOPE); every import kind is handled and inclusion/exclusion use predicates of opposite polarity over the same membership test (IMPORT-KINDS); the resolver reaches every child (VISIT-COMPLETE-RESOLVE).",
+        "note": "Clash detection and file discovery are not decided.",
+    },
+    "C34": {
+        "text": "Decides that no editor-analysis visitor (find_in_*, find_ident_in_*, collect_vars_in_*) nor any front-end visitor reached by check_lsp has a panicking arm for a constructible AST variant (VISIT-TOTAL-LSP, VISIT-TOTAL-FRONT).",
+        "note": "The undecided part of C04 (value-dependent panics in lexer/parser) is undecided here as well.",
+    },
+})
+CLAIMS["C01"]["text"] += " Function epilogues choose ReturnVoid vs Return(n) from the return type (EPILOGUE); assembler totality (ASM-TOTAL)."
+
 NOT_APPLICABLE = {
     "C22": "which instance monomorphisation selects is computed from solved types of the user's program by unification/substitution; no structural fact short of a correctness proof of subst/fits_impl_ty decides it",
     "C25": "sortedness/stability is an algorithmic property of index arithmetic over arrays of arbitrary length; the structural facts available are far from sufficient",
     "C30": "literal denotation depends on character-level lexer behaviour on every string and on str::parse: value semantics, not code shape",
     "C35": "agreement of offset->node search with the resolver's keys is a relation between source ranges computed at run time",
 }
-for _p in ["C03", "C04", "C06", "C11", "C12", "C13", "C14", "C18", "C19", "C20", "C21", "C23", "C24", "C27", "C28", "C29", "C31", "C32", "C33", "C34", "C36", "C37", "C38"]:
+for _p in ["C06", "C11", "C14", "C23", "C24", "C27", "C28", "C29", "C31", "C32", "C33", "C34", "C36", "C37", "C38"]:
     NOT_APPLICABLE.setdefault(_p, PENDING)
